@@ -787,5 +787,8 @@ for _p in ("C17", "C08"):
 PROPS["C17"]["rules"] = PROPS["C17"]["rules"] + [rules_access.rule_version_flag_decided]
 PROPS["C17"]["explanation"] += " (VERFLAG) a routine that stores the file record's version numbers decides version.modified before it leaves."
 
+PROPS["C09"]["rules"] = PROPS["C09"]["rules"] + [rules_gr.rule_existence_through_open_aid]
+PROPS["C09"]["explanation"] += " (OPENLEN) whether an image has data is decided with the open access element's length when there is one, not with the length recorded in the file."
+
 NOT_APPLICABLE = {}
 
